@@ -71,8 +71,12 @@ def _qb_worker(args):
     try:
         for i in range(n):
             cz = store.Concretiser(rnd, scales=(1,))
-            base = cz.base
             scale = rnd.choice([1, 10, 1000])
+            if rnd.random() < 0.25:
+                # windows and events around the wall-clock present (a query over "the last hour" straddles now)
+                from datetime import datetime, timezone
+                cz.base = datetime.now(timezone.utc).replace(microsecond=0) - 3 * scale * MS
+            base = cz.base
             bid = "qb-%d-%d" % (seed, i)
             b = ds.create_bucket(bid, "t", "c", "h")
             spec = reads.contents_pool(rnd, scale)
